@@ -318,6 +318,7 @@ class Engine:
         self.max_steps = max_steps
         self.max_paths = max_paths
         self.discr_events = None
+        self.unfold = None          # opt-in: (fn, event, state) -> may a function that is already being analysed be entered once more?
         self.max_depth = max_depth
         self.models = dict(MODELS)
         if models:
@@ -961,7 +962,8 @@ class Engine:
                 targs = None
                 callee = dict(callee, syn_inline=True)
         if target_fn is not None and len(st.frames) <= self.max_depth and (self.inline(target_fn, ev) or callee.get("syn_inline")) \
-                and not any(f0["fn"] is target_fn for f0 in st.frames):
+                and (not any(f0["fn"] is target_fn for f0 in st.frames)
+                     or (self.unfold is not None and sum(1 for f0 in st.frames if f0["fn"] is target_fn) == 1 and self.unfold(target_fn, ev, st))):
             fid = self._nfid
             self._nfid += 1
             ev["inlined"] = True
